@@ -358,6 +358,16 @@ def run_c10(ctx, prop):
             {"k": "interface", "name": "IBaseC", "base": None, "members": [
                 {"k": "const", "type": "uint32", "name": "Timeout", "value": "5"}, {"k": "error", "name": "BUSY"},
                 {"k": "method", "name": "RESET", "optional": False, "doc": None, "params": []}]}]}]})
+    fixed.append({"id": "C10-same-const-names", "main": "main.idl", "incdirs": [], "files": [
+        {"path": "main.idl", "nodes": [
+            {"k": "include", "path": "other.idl"},
+            {"k": "const", "type": "uint32", "name": "LIMIT", "value": "3"},
+            {"k": "interface", "name": "IReaderN", "base": None, "members": [{"k": "const", "type": "uint32", "name": "VERSION", "value": "1"}, {"k": "error", "name": "FAILED"},
+                                                                              {"k": "method", "name": "read", "optional": False, "doc": None, "params": []}]},
+            {"k": "interface", "name": "IWriterN", "base": None, "members": [{"k": "const", "type": "uint32", "name": "VERSION", "value": "2"}, {"k": "error", "name": "FAILED"},
+                                                                              {"k": "method", "name": "read", "optional": False, "doc": None, "params": []}]}]},
+        {"path": "other.idl", "nodes": [
+            {"k": "interface", "name": "IOtherN", "base": None, "members": [{"k": "const", "type": "uint16", "name": "VERSION", "value": "9"}, {"k": "error", "name": "FAILED"}]}]}]})
     for i in range(n + len(fixed)):
         base = fixed[i] if i < len(fixed) else gen.gen_case(ctx.rng, opts, cid=f"C10-{ctx.seed}-{i}")
         if i >= len(fixed) and i % 3 == 0:
